@@ -21,7 +21,12 @@ import Proofs.RegularizationSplitFrom
 import Proofs.RegularizationKernel
 import Proofs.RegularizationGaussPD
 import Proofs.RegularizationBlock
+import Proofs.RegularizationRect
+import Proofs.RegularizationReduced
+import Proofs.RegularizationSignals
+import Proofs.RegularizationExpPD
 import Mathlib.Analysis.Real.Sqrt
+import Mathlib.Analysis.SpecialFunctions.Pow.Real
 import Mathlib.Analysis.Complex.Exponential
 
 open Model Model.Mat Model.Spec
@@ -436,6 +441,340 @@ theorem block_diag_psd (objs : List (Nat × List (List α))) (h : AllDims objs)
     (x : List α) (hx : x.length = totalParams objs) : 0 ≤ quad (blockDiag objs) x :=
   blockDiag_psd objs h hp x hx
 
+/-! ## (e′) exponential kernel — full over ℝ (proof in Proofs/RegularizationExpPD*.lean) -/
+
+/-- (e, exponential — full) over ℝ with the real `exp` and `sqrt`, the covariance matrix that
+    `exp_cov_matrix_from` builds (`exp(−‖p_i − p_j‖/σ) + ρ[i=j]`) is positive definite for every list of
+    points (repeated points allowed), every scale `σ ≥ 0` and every ridge `ρ > 0`: the Euclidean distance of
+    ℝ² is conditionally negative definite (angular average of `|⟨u, p − q⟩|`), Schoenberg's step (Schur
+    products + the power series of `exp`) makes `exp(−t‖p − q‖)` positive semi-definite, the ridge makes it
+    strict.  (For `σ < 0` the kernel is `exp(+d/|σ|)`, which is not PSD: the hypothesis is needed.) -/
+theorem exponential_kernel_cov_posdef (scale ridge : ℝ) (hσ : 0 ≤ scale) (hρ : 0 < ridge)
+    (pts : List (ℝ × ℝ)) :
+    IsPosDef pts.length
+      (Impl.covMatrix (Impl.expKernel Real.exp scale) Real.sqrt ridge pts) :=
+  Model.RegExpPD.exponential_kernel_cov_posdef scale ridge hσ hρ pts
+
+/-- (e, exponential — full) `ExponentialKernel.regularization_matrix_from` returns a symmetric strictly
+    positive-definite matrix: only the contract of `np.linalg.inv` remains as a hypothesis -/
+theorem exponential_kernel_reg_posdef (env : Impl.Env ℝ) (hexp : env.exp = Real.exp)
+    (hsqrt : env.sqrt = Real.sqrt) (hρ : 0 < env.ridge) (c scale : ℝ) (hc : 0 < c) (hσ : 0 ≤ scale)
+    (o : Impl.LinObj ℝ)
+    (hinv : IsRightInverse o.points.length
+              (Impl.covMatrix (Impl.expKernel Real.exp scale) Real.sqrt env.ridge o.points)
+              (env.inv (Impl.covMatrix (Impl.expKernel Real.exp scale) Real.sqrt env.ridge o.points))) :
+    ∃ H, Impl.schemeMatrix env (.exponentialKernel c scale) o = .ok H
+      ∧ IsSymm o.points.length H ∧ IsPosDef o.points.length H := by
+  have h := kernel_reg_posdef_partial env c scale hc o (Impl.expKernel env.exp scale)
+    (.exponentialKernel c scale) (Or.inr ⟨rfl, rfl⟩)
+  rw [hexp, hsqrt] at h
+  exact h (Model.RegExpPD.exponential_kernel_cov_posdef scale env.ridge hσ hρ o.points) hinv
+
+/-! ## (g) rectangular meshes — clauses (a), (b) with no hypothesis on the neighbour table
+
+`Impl.rectMeshNeighbors H W` / `Impl.rectMeshSizes H W` are `Mesh2DRectangular.neighbors` (and `.sizes`):
+the loop transliteration `Impl.rectNeighbors` of `mesh_util.rectangular_neighbors_from` (corners, four
+edges, centre — C06.f), read by the regularization loops the numpy way.  C06's theorem
+`rectNeighbors_eq_spec` (the table is exactly the 4-connectivity) is composed with the C07 clauses, so for
+**every** mesh shape `H, W ≥ 2` (the code requires ≥ 3), every coefficient and every weight vector nothing
+is left as a hypothesis. -/
+
+/-- (g) the table of a rectangular mesh has one row per pixel, reads only valid pixel indices and is
+    symmetric with multiplicity — the hypotheses `InRange` / `Symmetric` of clauses (a), (b) -/
+theorem rect_neighbors_wellformed (H W : Nat) (hH : 2 ≤ H) (hW : 2 ≤ W) :
+    (Impl.rectMeshNeighbors H W).length = H * W
+    ∧ (Impl.rectMeshSizes H W).length = H * W
+    ∧ InRange (H * W) (Impl.rectMeshNeighbors H W) (Impl.rectMeshSizes H W)
+    ∧ Symmetric (H * W) (Impl.rectMeshNeighbors H W) (Impl.rectMeshSizes H W) :=
+  ⟨(rectMesh_length H W hH hW).1, (rectMesh_length H W hH hW).2, rectMesh_inRange H W hH hW,
+    rectMesh_symmetric H W hH hW⟩
+
+/-- (g) the "neighbouring source-pixel pairs" of a rectangular mesh are exactly the horizontally and
+    vertically adjacent pixel pairs, each listed once: `(y, x)` is paired with `(y, x+1)` and `(y+1, x)` -/
+theorem rect_pairs_are_adjacent_pixels (H W : Nat) (hH : 2 ≤ H) (hW : 2 ≤ W) :
+    (pairs (H * W) (Impl.rectMeshNeighbors H W) (Impl.rectMeshSizes H W)).Nodup
+    ∧ ∀ y x y' x', x < W → x' < W → y < H → y' < H →
+        ((y * W + x, y' * W + x')
+            ∈ pairs (H * W) (Impl.rectMeshNeighbors H W) (Impl.rectMeshSizes H W)
+          ↔ (y' = y ∧ x + 1 = x') ∨ (x' = x ∧ y + 1 = y')) :=
+  ⟨(rectMesh_pairs H W hH hW).1,
+    fun y x y' x' hx hx' hy hy' => rectMesh_pairs_coords H W hH hW y x y' x' hx hx' hy hy'⟩
+
+/-- (g, a) `Constant` on a rectangular mesh, unconditional: `H·W × H·W`, symmetric,
+    `xᵀHx = c²·Σ_{adjacent pixel pairs}(x_i − x_j)² + ρ|x|²`, strictly positive definite -/
+theorem rect_constant_spec (H W : Nat) (hH : 2 ≤ H) (hW : 2 ≤ W) (ρ c : α) (hρ : 0 < ρ) :
+    Dims (H * W) (Impl.constantMatrix ρ c (Impl.rectMeshNeighbors H W) (Impl.rectMeshSizes H W))
+    ∧ (∀ i j, entry (Impl.constantMatrix ρ c (Impl.rectMeshNeighbors H W) (Impl.rectMeshSizes H W)) i j
+          = entry (Impl.constantMatrix ρ c (Impl.rectMeshNeighbors H W) (Impl.rectMeshSizes H W)) j i)
+    ∧ (∀ x : List α, x.length = H * W →
+        quad (Impl.constantMatrix ρ c (Impl.rectMeshNeighbors H W) (Impl.rectMeshSizes H W)) x
+          = (c * c) * ((pairs (H * W) (Impl.rectMeshNeighbors H W) (Impl.rectMeshSizes H W)).map fun e =>
+                (x.getD e.1 0 - x.getD e.2 0) * (x.getD e.1 0 - x.getD e.2 0)).sum
+            + ρ * sumSq x)
+    ∧ (∀ x : List α, x.length = H * W → (∃ i, i < H * W ∧ x.getD i 0 ≠ 0) →
+        0 < quad (Impl.constantMatrix ρ c (Impl.rectMeshNeighbors H W) (Impl.rectMeshSizes H W)) x) := by
+  obtain ⟨hn, _, hR, hS⟩ := rect_neighbors_wellformed H W hH hW
+  exact ⟨(constantMatrix_linfun (linfun_entry (H * W) 0 0) ρ c _ _ hn hR).1,
+    fun i j => constantMatrix_symm ρ c _ _ hn hR hS i j,
+    fun x hx => constantMatrix_quad_pairs ρ c _ _ hn hR hS x hx,
+    fun x hx hx0 => constantMatrix_posdef ρ c hρ _ _ hn hR hS x hx hx0⟩
+
+/-- (g, a) `ConstantZeroth` on a rectangular mesh, unconditional: the same with `+ c₀²|x|²` -/
+theorem rect_constant_zeroth_spec (H W : Nat) (hH : 2 ≤ H) (hW : 2 ≤ W) (ρ c cz : α) (hρ : 0 < ρ) :
+    Dims (H * W)
+      (Impl.constantZerothMatrix ρ c cz (Impl.rectMeshNeighbors H W) (Impl.rectMeshSizes H W))
+    ∧ (∀ i j,
+        entry (Impl.constantZerothMatrix ρ c cz (Impl.rectMeshNeighbors H W) (Impl.rectMeshSizes H W)) i j
+          = entry (Impl.constantZerothMatrix ρ c cz (Impl.rectMeshNeighbors H W) (Impl.rectMeshSizes H W)) j i)
+    ∧ (∀ x : List α, x.length = H * W →
+        quad (Impl.constantZerothMatrix ρ c cz (Impl.rectMeshNeighbors H W) (Impl.rectMeshSizes H W)) x
+          = (c * c) * ((pairs (H * W) (Impl.rectMeshNeighbors H W) (Impl.rectMeshSizes H W)).map fun e =>
+                (x.getD e.1 0 - x.getD e.2 0) * (x.getD e.1 0 - x.getD e.2 0)).sum
+            + ρ * sumSq x + (cz * cz) * sumSq x)
+    ∧ (∀ x : List α, x.length = H * W → (∃ i, i < H * W ∧ x.getD i 0 ≠ 0) →
+        0 < quad (Impl.constantZerothMatrix ρ c cz (Impl.rectMeshNeighbors H W) (Impl.rectMeshSizes H W)) x) := by
+  obtain ⟨hn, _, hR, hS⟩ := rect_neighbors_wellformed H W hH hW
+  refine ⟨(constantZerothMatrix_linfun (linfun_entry (H * W) 0 0) ρ c cz _ _ hn hR).1, ?_, ?_, ?_⟩
+  · intro i j
+    rw [(constantZerothMatrix_linfun (linfun_entry (H * W) i j) ρ c cz _ _ hn hR).2,
+      (constantZerothMatrix_linfun (linfun_entry (H * W) j i) ρ c cz _ _ hn hR).2]
+    exact constantMatrix_symm (ρ + cz * cz) c _ _ hn hR hS i j
+  · intro x hx
+    rw [(constantZerothMatrix_linfun (linfun_quad (H * W) x hx) ρ c cz _ _ hn hR).2,
+      constantMatrix_quad_pairs (ρ + cz * cz) c _ _ hn hR hS x hx]
+    ring
+  · intro x hx hx0
+    rw [(constantZerothMatrix_linfun (linfun_quad (H * W) x hx) ρ c cz _ _ hn hR).2]
+    exact constantMatrix_posdef (ρ + cz * cz) c (by nlinarith [mul_self_nonneg cz]) _ _ hn hR hS x hx hx0
+
+/-- (g, b) the weighted (adaptive) matrix on a rectangular mesh, unconditional, for every weight vector
+    `w` with one entry per pixel: symmetric, the adjacent pair `{i, j}` weighted by `w_i² + w_j²`,
+    strictly positive definite -/
+theorem rect_weighted_spec (H W : Nat) (hH : 2 ≤ H) (hW : 2 ≤ W) (ρ : α) (hρ : 0 < ρ) (w : List α)
+    (hw : w.length = H * W) :
+    Dims (H * W) (Impl.weightedMatrix ρ w (Impl.rectMeshNeighbors H W) (Impl.rectMeshSizes H W))
+    ∧ (∀ i j, entry (Impl.weightedMatrix ρ w (Impl.rectMeshNeighbors H W) (Impl.rectMeshSizes H W)) i j
+          = entry (Impl.weightedMatrix ρ w (Impl.rectMeshNeighbors H W) (Impl.rectMeshSizes H W)) j i)
+    ∧ (∀ x : List α, x.length = H * W →
+        quad (Impl.weightedMatrix ρ w (Impl.rectMeshNeighbors H W) (Impl.rectMeshSizes H W)) x
+          = ((pairs (H * W) (Impl.rectMeshNeighbors H W) (Impl.rectMeshSizes H W)).map fun e =>
+                (w.getD e.1 0 * w.getD e.1 0 + w.getD e.2 0 * w.getD e.2 0)
+                  * ((x.getD e.1 0 - x.getD e.2 0) * (x.getD e.1 0 - x.getD e.2 0))).sum
+            + ρ * sumSq x)
+    ∧ (∀ x : List α, x.length = H * W → (∃ i, i < H * W ∧ x.getD i 0 ≠ 0) →
+        0 < quad (Impl.weightedMatrix ρ w (Impl.rectMeshNeighbors H W) (Impl.rectMeshSizes H W)) x) := by
+  obtain ⟨_, _, hR, hS⟩ := rect_neighbors_wellformed H W hH hW
+  exact ⟨(weightedMatrix_linfun (linfun_entry (H * W) 0 0) ρ w _ _ hw hR).1,
+    fun i j => weightedMatrix_symm ρ w _ _ hw hR i j,
+    fun x hx => weightedMatrix_quad_pairs ρ w _ _ hw hR hS x hx,
+    fun x hx hx0 => weightedMatrix_posdef ρ hρ w _ _ hw hR x hx hx0⟩
+
+/-- (g, b) class level: `AdaptiveBrightness.regularization_matrix_from` on a linear object that sits on a
+    rectangular mesh (its `neighbors` are the mesh's table, one pixel signal per mesh pixel) returns the
+    matrix of `rect_weighted_spec` with `w` = the weights `AdaptiveBrightness.regularization_weights_from`
+    reports for that object -/
+theorem rect_adaptive_brightness_spec (H W : Nat) (hH : 2 ≤ H) (hW : 2 ≤ W) (env : Impl.Env α)
+    (hρ : 0 < env.ridge) (inner outer : α) (o : Impl.LinObj α)
+    (hN : o.neighbors = Impl.rectMeshNeighbors H W) (hS : o.sizes = Impl.rectMeshSizes H W)
+    (hsig : o.signals.length = H * W) :
+    ∃ M, Impl.schemeMatrix env (.adaptiveBrightness inner outer) o = .ok M
+      ∧ Dims (H * W) M ∧ (∀ i j, entry M i j = entry M j i)
+      ∧ (∀ x : List α, x.length = H * W →
+          quad M x
+            = ((pairs (H * W) (Impl.rectMeshNeighbors H W) (Impl.rectMeshSizes H W)).map fun e =>
+                  ((Impl.schemeWeights (.adaptiveBrightness inner outer) o).getD e.1 0
+                      * (Impl.schemeWeights (.adaptiveBrightness inner outer) o).getD e.1 0
+                    + (Impl.schemeWeights (.adaptiveBrightness inner outer) o).getD e.2 0
+                      * (Impl.schemeWeights (.adaptiveBrightness inner outer) o).getD e.2 0)
+                    * ((x.getD e.1 0 - x.getD e.2 0) * (x.getD e.1 0 - x.getD e.2 0))).sum
+              + env.ridge * sumSq x)
+      ∧ (∀ x : List α, x.length = H * W → (∃ i, i < H * W ∧ x.getD i 0 ≠ 0) → 0 < quad M x) := by
+  have hw : (Impl.schemeWeights (.adaptiveBrightness inner outer) o).length = H * W := by
+    simp [Impl.schemeWeights, Impl.adaptiveWeights, hsig]
+  obtain ⟨h1, h2, h3, h4⟩ := rect_weighted_spec H W hH hW env.ridge hρ _ hw
+  refine ⟨_, rfl, ?_, ?_, ?_, ?_⟩
+  · rw [hN, hS]; exact h1
+  · rw [hN, hS]; exact h2
+  · rw [hN, hS]; exact h3
+  · rw [hN, hS]; exact h4
+
+/-! ## (h) the reduced matrix and the list of unregularized parameters
+
+`Impl.noRegIndexList` is `AbstractInversion.no_regularization_index_list` (objects given as
+`(params, has a scheme)`), `Impl.reducedMatrix` is `AbstractInversion.regularization_matrix_reduced`
+(objects given as `(params, matrix of the scheme if any)`; `np.delete` = `Spec.deleteIdx`).
+`noRegSpec off objs` = object by object, the whole range `[off, off + params)` of every object without a
+scheme; `regBlocks objs` = the objects that have a scheme, with their matrices, in object order. -/
+
+/-- (h) `no_regularization_index_list` lists exactly the parameter indices of the objects without a
+    regularization scheme — object `k` contributes its whole range `[offset_k, offset_k + params_k)` iff it
+    has no scheme — in strictly increasing order, for any mix and order of objects -/
+theorem no_regularization_index_list_spec (objs : List (Nat × Bool)) :
+    Impl.noRegIndexList objs = noRegSpec 0 objs
+    ∧ (Impl.noRegIndexList objs).Pairwise (· < ·) := by
+  rw [noRegIndexList_eq]
+  exact ⟨rfl, noRegSpec_sorted 0 objs⟩
+
+/-- (h) `regularization_matrix_reduced` is the assembled block-diagonal matrix with exactly the rows and
+    the columns of `no_regularization_index_list` removed — in both branches of the code (when every
+    object has a scheme the list is empty and the shortcut returns the same matrix) -/
+theorem reduced_is_deletion (objs : List (Nat × Option (List (List α)))) :
+    Impl.reducedMatrix objs
+      = (deleteIdx (Impl.inversionMatrix objs) (Impl.noRegIndexList (regFlags objs))).map
+          fun r => deleteIdx r (Impl.noRegIndexList (regFlags objs)) :=
+  reducedMatrix_eq_delete objs
+
+/-- (h) hence the reduced matrix is the block-diagonal matrix of the regularized objects' own matrices, in
+    object order: the all-zero blocks of the objects without a scheme are gone and nothing else changed -/
+theorem reduced_eq_block_diag (objs : List (Nat × Option (List (List α))))
+    (hd : ∀ o ∈ objs, ∀ H, o.2 = some H → Dims o.1 H) :
+    Impl.reducedMatrix objs = blockDiag (regBlocks objs) :=
+  reducedMatrix_eq_blockDiag objs hd
+
+/-- (f′) a block-diagonal matrix whose blocks are all strictly positive definite is strictly positive
+    definite, for any number of blocks -/
+theorem block_diag_posdef (objs : List (Nat × List (List α))) (h : AllDims objs)
+    (hp : ∀ o ∈ objs, ∀ x : List α, x.length = o.1 → (∃ i, i < o.1 ∧ x.getD i 0 ≠ 0) → 0 < quad o.2 x)
+    (x : List α) (hx : x.length = totalParams objs)
+    (hx0 : ∃ i, i < totalParams objs ∧ x.getD i 0 ≠ 0) : 0 < quad (blockDiag objs) x :=
+  blockDiag_posdef objs h hp x hx hx0
+
+/-- (h) the reduced matrix has the size of the regularized parameters, is symmetric when every scheme's
+    matrix is, and is strictly positive definite when every scheme's matrix is — so its Cholesky
+    factorisation and log-determinant (the regularization term of the evidence) exist although the full
+    matrix is only semi-definite as soon as one object has no scheme -/
+theorem reduced_symm_posdef (objs : List (Nat × Option (List (List α))))
+    (hd : ∀ o ∈ objs, ∀ H, o.2 = some H → Dims o.1 H)
+    (hs : ∀ o ∈ objs, ∀ H, o.2 = some H → ∀ a b, entry H a b = entry H b a)
+    (hp : ∀ o ∈ objs, ∀ H, o.2 = some H → ∀ x : List α, x.length = o.1 →
+      (∃ i, i < o.1 ∧ x.getD i 0 ≠ 0) → 0 < quad H x) :
+    Dims (totalParams (regBlocks objs)) (Impl.reducedMatrix objs)
+    ∧ (∀ i j, entry (Impl.reducedMatrix objs) i j = entry (Impl.reducedMatrix objs) j i)
+    ∧ ∀ x : List α, x.length = totalParams (regBlocks objs) →
+        (∃ i, i < totalParams (regBlocks objs) ∧ x.getD i 0 ≠ 0) →
+        0 < quad (Impl.reducedMatrix objs) x := by
+  have hmem : ∀ b ∈ regBlocks objs, ∃ o ∈ objs, o.2 = some b.2 ∧ o.1 = b.1 := by
+    intro b hb
+    simp only [regBlocks, List.mem_filterMap] at hb
+    obtain ⟨o, ho, hb⟩ := hb
+    cases h2 : o.2 with
+    | none => simp [h2] at hb
+    | some H =>
+      simp only [h2, Option.map_some, Option.some.injEq] at hb
+      subst hb
+      exact ⟨o, ho, h2, rfl⟩
+  have hall : AllDims (regBlocks objs) := by
+    intro b hb
+    obtain ⟨o, ho, h2, h1⟩ := hmem b hb
+    rw [← h1]; exact hd o ho _ h2
+  rw [reducedMatrix_eq_blockDiag objs hd]
+  refine ⟨blockDiag_dims _ hall, ?_, ?_⟩
+  · intro i j
+    apply blockDiag_symm _ hall
+    intro b hb
+    obtain ⟨o, ho, h2, _⟩ := hmem b hb
+    exact hs o ho _ h2
+  · intro x hx hx0
+    apply blockDiag_posdef _ hall _ x hx hx0
+    intro b hb
+    obtain ⟨o, ho, h2, h1⟩ := hmem b hb
+    rw [← h1]; exact hp o ho _ h2
+
+/-! ## (i) the pixel signals behind the adaptive weights
+
+`Impl.adaptivePixelSignals pow …` is `mapper_util.adaptive_pixel_signals_from` (what
+`mapper.pixel_signals_from(signal_scale)` returns and `AdaptiveBrightness.regularization_weights_from`
+feeds into `adaptive_regularization_weights_from`); `pow` is `x ↦ x ** signal_scale`.
+`SignalsWF` = the mapper's tables are well formed (indices valid, a triangle's three vertices distinct and
+as many weights as vertices); `Spec.pixelSignalSum / Count / Mean` are the finite sums below. -/
+
+/-- (i) the accumulation loop: on well-formed mapper tables `pixel_signals[p]` ends as
+    `Σ_sub Σ_{l<size_sub} [vertex_{sub,l} = p]·adapt[slim(sub)]·weight_{sub,l}` (weight 1 for a sub-pixel
+    with a single mapping) and `pixel_sizes[p]` as the number of sub-pixels whose row contains `p` -/
+theorem pixel_signals_accumulate_spec (pixels : Nat) (pixelWeights : List (List α))
+    (pixIndexes : List (List Int)) (pixSizes : List Nat) (slimForSub : List Nat) (adaptData : List α)
+    (hwf : SignalsWF pixels pixelWeights pixIndexes pixSizes) :
+    (Impl.pixelSignalAccum pixels pixelWeights pixIndexes pixSizes slimForSub adaptData).1.length = pixels
+    ∧ (Impl.pixelSignalAccum pixels pixelWeights pixIndexes pixSizes slimForSub adaptData).2.length = pixels
+    ∧ ∀ p, p < pixels →
+        (Impl.pixelSignalAccum pixels pixelWeights pixIndexes pixSizes slimForSub adaptData).1.getD p 0
+          = pixelSignalSum pixels pixelWeights pixIndexes pixSizes slimForSub adaptData p
+        ∧ (Impl.pixelSignalAccum pixels pixelWeights pixIndexes pixSizes slimForSub adaptData).2.getD p 0
+          = pixelSignalCount pixels pixIndexes pixSizes p :=
+  pixelSignalAccum_spec pixels pixelWeights pixIndexes pixSizes slimForSub adaptData hwf
+
+/-- (i) what `adaptive_pixel_signals_from` returns: one value per source pixel, pixel `p` carrying
+    `(mean_p / max_q mean_q) ** signal_scale`, `mean_p` = sum over count (count 0 replaced by 1) -/
+theorem pixel_signals_spec (pow : α → α) (pixels : Nat) (hpix : 0 < pixels)
+    (pixelWeights : List (List α)) (pixIndexes : List (List Int)) (pixSizes : List Nat)
+    (slimForSub : List Nat) (adaptData : List α)
+    (hwf : SignalsWF pixels pixelWeights pixIndexes pixSizes) :
+    (Impl.adaptivePixelSignals pow pixels pixelWeights pixIndexes pixSizes slimForSub adaptData).length
+      = pixels
+    ∧ ∃ mx : α,
+        (∃ q, q < pixels
+          ∧ mx = pixelSignalMean pixels pixelWeights pixIndexes pixSizes slimForSub adaptData q)
+        ∧ (∀ q, q < pixels →
+            pixelSignalMean pixels pixelWeights pixIndexes pixSizes slimForSub adaptData q ≤ mx)
+        ∧ ∀ p, p < pixels →
+            (Impl.adaptivePixelSignals pow pixels pixelWeights pixIndexes pixSizes slimForSub
+                adaptData).getD p 0
+              = pow (pixelSignalMean pixels pixelWeights pixIndexes pixSizes slimForSub adaptData p / mx) :=
+  adaptivePixelSignals_spec pow pixels hpix pixelWeights pixIndexes pixSizes slimForSub adaptData hwf
+
+/-- (i) range, for **any** tables (no well-formedness needed): with a non-negative adapt image,
+    non-negative interpolation weights and at least one pixel of positive mean signal, and a power function
+    mapping `[0,1]` into `[0,1]` with `1 ** s = 1`, every pixel signal lies in `[0, 1]` and the brightest
+    pixel has signal exactly 1 -/
+theorem pixel_signals_in_unit_interval (pow : α → α)
+    (hpow : ∀ t, 0 ≤ t → t ≤ 1 → 0 ≤ pow t ∧ pow t ≤ 1) (hpow1 : pow 1 = 1) (pixels : Nat)
+    (pixelWeights : List (List α)) (pixIndexes : List (List Int)) (pixSizes : List Nat)
+    (slimForSub : List Nat) (adaptData : List α) (had : ∀ v ∈ adaptData, 0 ≤ v)
+    (hw : ∀ r ∈ pixelWeights, ∀ v ∈ r, 0 ≤ v)
+    (hpos : ∃ m ∈ Impl.pixelSignalMeans pixels pixelWeights pixIndexes pixSizes slimForSub adaptData, 0 < m) :
+    (∀ s ∈ Impl.adaptivePixelSignals pow pixels pixelWeights pixIndexes pixSizes slimForSub adaptData,
+        0 ≤ s ∧ s ≤ 1)
+    ∧ 1 ∈ Impl.adaptivePixelSignals pow pixels pixelWeights pixIndexes pixSizes slimForSub adaptData := by
+  obtain ⟨h1, h2⟩ := adaptivePixelSignals_range pow pixels pixelWeights pixIndexes pixSizes slimForSub
+    adaptData had hw hpos
+  refine ⟨?_, by rw [← hpow1]; exact h2⟩
+  intro s hs
+  obtain ⟨t, ht0, ht1, rfl⟩ := h1 s hs
+  exact hpow t ht0 ht1
+
+/-- (i) `adaptive_regularization_weights_from`: weight `i` is `(inner·s_i + outer·(1 − s_i))²`; always
+    ≥ 0, and > 0 for positive coefficients and signals in `[0, 1]` -/
+theorem adaptive_weights_spec (inner outer : α) (signals : List α) :
+    (Impl.adaptiveWeights inner outer signals).length = signals.length
+    ∧ (∀ i, i < signals.length →
+        (Impl.adaptiveWeights inner outer signals).getD i 0
+          = (inner * signals.getD i 0 + outer * (1 - signals.getD i 0))
+            * (inner * signals.getD i 0 + outer * (1 - signals.getD i 0)))
+    ∧ (∀ w ∈ Impl.adaptiveWeights inner outer signals, 0 ≤ w)
+    ∧ (0 < inner → 0 < outer → (∀ s ∈ signals, 0 ≤ s ∧ s ≤ 1) →
+        ∀ w ∈ Impl.adaptiveWeights inner outer signals, 0 < w) :=
+  ⟨by simp [Impl.adaptiveWeights], fun i hi => adaptiveWeights_getD inner outer signals i hi,
+    adaptiveWeights_nonneg inner outer signals,
+    fun hi ho hs => adaptiveWeights_pos inner outer hi ho signals hs⟩
+
+/-- (i) end to end: the weights `AdaptiveBrightness` reports for a linear object whose pixel signals are
+    the ones `adaptive_pixel_signals_from` computes from a non-negative adapt image (some pixel with a
+    positive mean) are all strictly positive when both coefficients are -/
+theorem adaptive_brightness_weights_pos (pow : α → α)
+    (hpow : ∀ t, 0 ≤ t → t ≤ 1 → 0 ≤ pow t ∧ pow t ≤ 1) (hpow1 : pow 1 = 1) (pixels : Nat)
+    (pixelWeights : List (List α)) (pixIndexes : List (List Int)) (pixSizes : List Nat)
+    (slimForSub : List Nat) (adaptData : List α) (had : ∀ v ∈ adaptData, 0 ≤ v)
+    (hw : ∀ r ∈ pixelWeights, ∀ v ∈ r, 0 ≤ v)
+    (hpos : ∃ m ∈ Impl.pixelSignalMeans pixels pixelWeights pixIndexes pixSizes slimForSub adaptData, 0 < m)
+    (inner outer : α) (hi : 0 < inner) (ho : 0 < outer) (o : Impl.LinObj α)
+    (hsig : o.signals
+      = Impl.adaptivePixelSignals pow pixels pixelWeights pixIndexes pixSizes slimForSub adaptData) :
+    ∀ w ∈ Impl.schemeWeights (.adaptiveBrightness inner outer) o, 0 < w := by
+  have h := (pixel_signals_in_unit_interval pow hpow hpow1 pixels pixelWeights pixIndexes pixSizes
+    slimForSub adaptData had hw hpos).1
+  simp only [Impl.schemeWeights, hsig]
+  exact adaptiveWeights_pos inner outer hi ho _ h
+
 /-! ## non-vacuity: concrete instances meeting the hypotheses -/
 
 /-- a 3-pixel chain 0–1–2 (the neighbour table of a 1×3 strip): in range, symmetric, and the constant
@@ -513,5 +852,119 @@ example :
     have hj0 : j = 0 := by omega
     subst hi0; subst hj0
     norm_num [sumRange, entry]
+
+/-! ### non-vacuity of the extension clauses (e′), (g), (h), (i) -/
+
+/-- (e′) the exponential covariance matrix of two concrete points is positive definite (instance of the
+    theorem; its hypotheses `0 ≤ σ`, `0 < ρ` are plainly satisfiable) -/
+example : IsPosDef 2
+    (Impl.covMatrix (Impl.expKernel Real.exp 1) Real.sqrt (1 / 100) [((0 : ℝ), (0 : ℝ)), (1, 0)]) :=
+  exponential_kernel_cov_posdef 1 (1 / 100) (by norm_num) (by norm_num) [((0 : ℝ), (0 : ℝ)), (1, 0)]
+
+/-- (g) a 2×3 mesh: the table the loops read (padding `-1` wrapped to the last pixel, never read), its seven
+    adjacent pairs, and the `Constant` matrix (ridge 1, coefficient 1) — the graph Laplacian plus the ridge -/
+example :
+    Impl.rectMeshNeighbors 2 3
+        = [[1, 3, 5, 5], [0, 2, 4, 5], [1, 5, 5, 5], [0, 4, 5, 5], [1, 3, 5, 5], [2, 4, 5, 5]]
+    ∧ Impl.rectMeshSizes 2 3 = [2, 3, 2, 2, 3, 2]
+    ∧ pairs (2 * 3) (Impl.rectMeshNeighbors 2 3) (Impl.rectMeshSizes 2 3)
+        = [(0, 1), (0, 3), (1, 2), (1, 4), (2, 5), (3, 4), (4, 5)]
+    ∧ Impl.constantMatrix (1 : Int) 1 (Impl.rectMeshNeighbors 2 3) (Impl.rectMeshSizes 2 3)
+        = [[3, -1, 0, -1, 0, 0], [-1, 4, -1, 0, -1, 0], [0, -1, 3, 0, 0, -1],
+           [-1, 0, 0, 3, -1, 0], [0, -1, 0, -1, 4, -1], [0, 0, -1, 0, -1, 3]] := by
+  decide
+
+/-- (g) the hypotheses of `rect_adaptive_brightness_spec` are satisfiable: a linear object on the 2×3 mesh -/
+example : ∃ o : Impl.LinObj ℚ, o.neighbors = Impl.rectMeshNeighbors 2 3
+    ∧ o.sizes = Impl.rectMeshSizes 2 3 ∧ o.signals.length = 2 * 3 :=
+  ⟨{ params := 6, neighbors := Impl.rectMeshNeighbors 2 3, sizes := Impl.rectMeshSizes 2 3,
+     signals := [1, 1 / 2, 0, 1 / 4, 1, 0], split := { mappings := [], sizes := [], weights := [] },
+     points := [] }, rfl, rfl, rfl⟩
+
+/-- (h) four objects, the first and the third without a scheme: the index list, the assembled matrix
+    (zero blocks in object order), the reduced matrix and the regularized blocks -/
+example :
+    let objs : List (Nat × Option (List (List Int))) :=
+      [(1, none), (2, some [[2, -1], [-1, 2]]), (2, none), (1, some [[3]])]
+    Impl.noRegIndexList (regFlags objs) = [0, 3, 4]
+    ∧ Impl.inversionMatrix objs
+        = [[0, 0, 0, 0, 0, 0], [0, 2, -1, 0, 0, 0], [0, -1, 2, 0, 0, 0], [0, 0, 0, 0, 0, 0],
+           [0, 0, 0, 0, 0, 0], [0, 0, 0, 0, 0, 3]]
+    ∧ Impl.reducedMatrix objs = [[2, -1, 0], [-1, 2, 0], [0, 0, 3]]
+    ∧ regBlocks objs = [(2, [[2, -1], [-1, 2]]), (1, [[3]])] := by
+  decide
+
+/-- (h) the hypotheses of `reduced_symm_posdef` are satisfiable: an unregularized object followed by a
+    one-pixel mapper whose scheme's matrix is `[[3]]` -/
+example :
+    let objs : List (Nat × Option (List (List ℚ))) := [(2, none), (1, some [[3]])]
+    (∀ o ∈ objs, ∀ H, o.2 = some H → Dims o.1 H)
+    ∧ (∀ o ∈ objs, ∀ H, o.2 = some H → ∀ a b, entry H a b = entry H b a)
+    ∧ (∀ o ∈ objs, ∀ H, o.2 = some H → ∀ x : List ℚ, x.length = o.1 →
+        (∃ i, i < o.1 ∧ x.getD i 0 ≠ 0) → 0 < quad H x) := by
+  intro objs
+  have key : ∀ o ∈ objs, ∀ H, o.2 = some H → o.1 = 1 ∧ H = [[3]] := by
+    intro o ho H hH
+    simp only [objs, List.mem_cons, List.not_mem_nil, or_false] at ho
+    rcases ho with rfl | rfl
+    · simp at hH
+    · simp only [Option.some.injEq] at hH
+      exact ⟨rfl, hH.symm⟩
+  refine ⟨?_, ?_, ?_⟩
+  · intro o ho H hH
+    obtain ⟨h1, rfl⟩ := key o ho H hH
+    rw [h1]
+    exact ⟨rfl, by simp⟩
+  · intro o ho H hH a b
+    obtain ⟨_, rfl⟩ := key o ho H hH
+    match a, b with
+    | 0, 0 => rfl
+    | 0, _ + 1 => simp [entry]
+    | _ + 1, 0 => simp [entry]
+    | _ + 1, _ + 1 => simp [entry]
+  · intro o ho H hH x hx hx0
+    obtain ⟨h1, rfl⟩ := key o ho H hH
+    rw [h1] at hx hx0
+    obtain ⟨i, hi, hne⟩ := hx0
+    have hi0 : i = 0 := by omega
+    subst hi0
+    match x, hx with
+    | [a], _ =>
+      have ha : a ≠ 0 := by simpa using hne
+      have : 0 < a * a := mul_self_pos.mpr ha
+      simp only [quad, sumRange, entry, List.length_singleton, List.range_one, List.map_cons,
+        List.map_nil, List.sum_cons, List.sum_nil, List.getD_cons_zero, add_zero]
+      nlinarith
+
+/-- (i) two source pixels, one sub-pixel inside a "triangle" `{0, 1}` (weights ½, ½, adapt value 2) and one
+    mapped to pixel 1 alone (row `[1, -1]`, adapt value 4): the tables are well formed, the adapt image and
+    the weights are non-negative, some mean is positive, and the signals are `[2/5, 1]`
+    (sums `[1, 5]`, counts `[1, 2]`, means `[1, 5/2]`) -/
+example :
+    let W : List (List ℚ) := [[1 / 2, 1 / 2], [1, 0]]
+    let I : List (List Int) := [[0, 1], [1, -1]]
+    SignalsWF 2 W I [2, 1]
+    ∧ (∀ v ∈ ([2, 4] : List ℚ), 0 ≤ v) ∧ (∀ r ∈ W, ∀ v ∈ r, 0 ≤ v)
+    ∧ (∃ m ∈ Impl.pixelSignalMeans 2 W I [2, 1] [0, 1] [2, 4], 0 < m)
+    ∧ Impl.pixelSignalAccum 2 W I [2, 1] [0, 1] [2, 4] = ([1, 5], [1, 2])
+    ∧ Impl.adaptivePixelSignals id 2 W I [2, 1] [0, 1] [2, 4] = [2 / 5, 1]
+    ∧ Impl.adaptiveWeights (2 : ℚ) 1 [2 / 5, 1] = [49 / 25, 4] := by
+  refine ⟨?_, by decide +kernel, by decide +kernel, ⟨1, by decide +kernel, by norm_num⟩,
+    by decide +kernel, by decide +kernel, by decide +kernel⟩
+  intro sub hsub
+  have hsub' : sub < 2 := by simpa using hsub
+  interval_cases sub
+  · refine ⟨by decide, fun _ => ⟨by decide, by decide, by decide⟩, fun h => absurd (by decide) h⟩
+  · refine ⟨by decide, fun h => absurd h (by decide), fun _ => by decide⟩
+
+/-- (i) the contract of `** signal_scale` used by `pixel_signals_in_unit_interval` holds for the real power
+    with any exponent `s ≥ 0` (`Real.rpow`; numpy's float power), and for natural-number powers over any
+    ordered field (what the driver executes exactly) -/
+example (s : ℝ) (hs : 0 ≤ s) :
+    (∀ t : ℝ, 0 ≤ t → t ≤ 1 → 0 ≤ t ^ s ∧ t ^ s ≤ 1) ∧ (1 : ℝ) ^ s = 1 :=
+  ⟨fun _ h0 h1 => ⟨Real.rpow_nonneg h0 s, Real.rpow_le_one h0 h1 hs⟩, Real.one_rpow s⟩
+
+example (k : Nat) : (∀ t : α, 0 ≤ t → t ≤ 1 → 0 ≤ t ^ k ∧ t ^ k ≤ 1) ∧ (1 : α) ^ k = 1 :=
+  ⟨fun _ h0 h1 => ⟨pow_nonneg h0 k, pow_le_one₀ h0 h1⟩, one_pow k⟩
 
 end C07
